@@ -35,6 +35,46 @@ pub fn batch_cases(seed: u64, n: usize) -> Vec<Case> {
         if i % 8 == 5 {
             c = conflicting_hints_case(&mut r);
         }
+        if i % 8 == 7 || i % 8 == 1 {
+            // a legacy text restricted (or with exclusions) to several code pages that read it alike: which one
+            // heads the match, which ones become alternatives, which are skipped as similar – all of it depends on
+            // the order of probing, which must not depend on anything but the arguments
+            let (name, enc, pages): (&str, &str, &[&str]) = *r.pick(&[
+                ("french", "windows-1252", &["windows-1252", "iso-8859-15", "iso-8859-1", "windows-1254", "iso-8859-9", "macintosh", "windows-1250"][..]),
+                ("russian", "windows-1251", &["windows-1251", "koi8-r", "koi8-u", "iso-8859-5", "ibm866", "x-mac-cyrillic", "windows-1252"][..]),
+                ("greek", "iso-8859-7", &["iso-8859-7", "windows-1253", "windows-1252", "iso-8859-1"][..]),
+                ("german", "iso-8859-1", &["iso-8859-1", "iso-8859-15", "windows-1252", "iso-8859-2", "windows-1250", "iso-8859-16"][..]),
+            ]);
+            let base = TEXTS.iter().find(|(n, _)| *n == name).map(|x| x.1).unwrap_or(TEXTS[0].1);
+            let k = r.range(120, 900);
+            let text = stretch(&mut r, base, k);
+            c.bytes = enc_bytes_lossy(&text, enc);
+            c.sett = Sett::default();
+            let mut list: Vec<String> = vec![];
+            for p in pages {
+                if r.chance(2, 3) {
+                    list.push(p.to_string());
+                }
+            }
+            if list.len() < 2 {
+                list = pages.iter().take(3).map(|p| p.to_string()).collect();
+            }
+            // shuffled, sometimes with repeats
+            for a in (1..list.len()).rev() {
+                let b = r.below(a + 1);
+                list.swap(a, b);
+            }
+            if r.chance(1, 4) {
+                let x = list[0].clone();
+                list.push(x);
+            }
+            if r.chance(3, 4) {
+                c.sett.incl = list;
+            } else {
+                c.sett.excl = list;
+            }
+            c.tag = "several-similar-pages".into();
+        }
         if i % 8 == 3 {
             c.bytes = adjacent_blocks_text(&mut r).into_bytes();
             c.sett = Sett::default();
